@@ -82,6 +82,9 @@ impl egg::CostFunction<Expr> for CostFn<'_> {
             // each operator has a cost of 0.1
             _ => enode.fold(0.1, |sum, id| sum + costs(&id)),
         };
+        // products of large row estimates overflow: an infinite cost of a child would make
+        // `inf * 0` / `inf - inf` = NaN in its parents, which the extractor cannot order
+        let c = c.min(f32::MAX);
         debug!(
             "{id}\t{enode:?}\tcost={c}, rows={}, cols={}",
             rows(id),
